@@ -52,9 +52,14 @@ pub enum Case {
     /// a composite of calloop's own sub-sources in the given order (true = `Generic` over an eventfd, false = a child
     /// that just draws its token from the factory, like a Timer or a freshly set TransientSource child), inserted,
     /// then re-registered `updates` times: every live sub-source must hold its own key of the source's (slot, generation)
+    /// `shape`: which drawing children take a token in which pass (bit (pass * 3 + i) % 32; all of them in pass 0 if
+    /// the mask is 0): a child that starts or stops drawing (a Timer whose deadline comes and goes, a transient child
+    /// that leaves) shifts the sub-ids of everything registered after it, and every key has to follow
     Mixed {
         layout: Vec<bool>,
         updates: u8,
+        #[serde(default)]
+        shape: u32,
     },
 }
 
@@ -115,7 +120,7 @@ fn loop_case() -> impl Strategy<Value = Case> {
 }
 
 fn mixed_case() -> impl Strategy<Value = Case> {
-    (proptest::collection::vec(any::<bool>(), 1..=6), 0u8..4).prop_map(|(layout, updates)| Case::Mixed { layout, updates })
+    (proptest::collection::vec(any::<bool>(), 1..=6), 0u8..4, prop_oneof![1 => Just(0u32), 2 => any::<u32>()]).prop_map(|(layout, updates, shape)| Case::Mixed { layout, updates, shape })
 }
 
 fn v(rule: &str, detail: String) -> Option<Violation> {
@@ -308,6 +313,8 @@ struct MixedProbe {
     gens: Vec<Option<calloop::generic::Generic<kernel::OwnedRaw>>>,
     /// per child: the key drawn by a drawing child at its last (re)registration
     drawn: Rc<RefCell<Vec<Option<usize>>>>,
+    /// bit i: drawing child i takes a token in the current pass
+    draws: Rc<std::cell::Cell<u32>>,
 }
 
 impl EventSource for MixedProbe {
@@ -325,7 +332,7 @@ impl EventSource for MixedProbe {
         for (i, g) in self.gens.iter_mut().enumerate() {
             match g {
                 Some(g) => g.register(poll, tf)?,
-                None => self.drawn.borrow_mut()[i] = Some(tf.token().verif_key()),
+                None => self.drawn.borrow_mut()[i] = if self.draws.get() >> i & 1 == 1 { Some(tf.token().verif_key()) } else { None },
             }
         }
         Ok(())
@@ -334,7 +341,7 @@ impl EventSource for MixedProbe {
         for (i, g) in self.gens.iter_mut().enumerate() {
             match g {
                 Some(g) => g.reregister(poll, tf)?,
-                None => self.drawn.borrow_mut()[i] = Some(tf.token().verif_key()),
+                None => self.drawn.borrow_mut()[i] = if self.draws.get() >> i & 1 == 1 { Some(tf.token().verif_key()) } else { None },
             }
         }
         Ok(())
@@ -347,7 +354,7 @@ impl EventSource for MixedProbe {
     }
 }
 
-fn run_mixed(layout: &[bool], updates: u8) -> Option<Violation> {
+fn run_mixed(layout: &[bool], updates: u8, shape: u32) -> Option<Violation> {
     let layout: Vec<bool> = layout.iter().copied().take(8).collect();
     if layout.is_empty() {
         return None;
@@ -368,17 +375,33 @@ fn run_mixed(layout: &[bool], updates: u8) -> Option<Violation> {
         }
     }
     let drawn = Rc::new(RefCell::new(vec![None; layout.len()]));
-    let tok = h.insert_source(MixedProbe { gens, drawn: drawn.clone() }, |_, _, _| {}).expect("insert MixedProbe");
+    let draws_of = |pass: u32| -> u32 {
+        if shape == 0 {
+            u32::MAX
+        } else {
+            (0..layout.len() as u32).fold(0, |m, i| m | ((shape >> ((pass * 3 + i) % 32) & 1) << i))
+        }
+    };
+    let draws = Rc::new(std::cell::Cell::new(draws_of(0)));
+    let tok = h.insert_source(MixedProbe { gens, drawn: drawn.clone(), draws: draws.clone() }, |_, _, _| {}).expect("insert MixedProbe");
     let (slot, ver, _) = cv::unpack(tok.verif_key());
     for round in 0..=updates.min(4) {
         if round > 0 {
+            draws.set(draws_of(round as u32));
             if let Err(e) = h.update(&tok) {
                 return v("C20.kernel", format!("update() of the composite failed: {e}"));
             }
         }
         let table = kernel::epoll_table(epfd);
         let mut keys: Vec<usize> = Vec::new();
+        // sub-ids are handed out in registration order to whoever takes one in this pass
+        let mut next_sub = 0u16;
         for (i, fd) in raw.iter().enumerate() {
+            if fd.is_none() && draws.get() >> i & 1 == 0 {
+                continue;
+            }
+            let want_sub = next_sub;
+            next_sub += 1;
             let k = match fd {
                 Some(fd) => match table.iter().find(|e| e.tfd == *fd) {
                     Some(e) => e.data as usize,
@@ -389,9 +412,20 @@ fn run_mixed(layout: &[bool], updates: u8) -> Option<Violation> {
                     None => return v("C20.factory", format!("drawing child {i} was not (re)registered in round {round}")),
                 },
             };
-            let (s2, v2, _) = cv::unpack(k);
+            let (s2, v2, sub2) = cv::unpack(k);
             if (s2, v2) != (slot, ver) {
                 return v("C20.kernel", format!("child {i} holds key {:?} after {round} update(s), the source is ({slot},{ver})", cv::unpack(k)));
+            }
+            if sub2 != want_sub {
+                return v(
+                    "C20.kernel",
+                    format!(
+                        "after {round} update(s) child {i} ({}) is known to the poller / holds sub-id {sub2}, but it was the {}th to take a sub-token in this pass (layout {layout:?}, drawing mask {:#b})",
+                        if fd.is_some() { "Generic" } else { "drawing child" },
+                        want_sub + 1,
+                        draws.get() & ((1u32 << layout.len()) - 1)
+                    ),
+                );
             }
             keys.push(k);
         }
@@ -519,10 +553,13 @@ pub fn run_case(case: &Case) -> CaseOutcome {
             info.nontrivial = *reuses >= 2 || *subs >= 2;
             run_loop(*pre_slots, *reuses, *subs)
         }
-        Case::Mixed { layout, updates } => {
+        Case::Mixed { layout, updates, shape } => {
             info.classes.push("mixed_composite");
+            if *shape != 0 {
+                info.classes.push("mixed_composite_with_shifting_sub_ids");
+            }
             info.nontrivial = layout.len() >= 2 && *updates >= 1 && layout.iter().any(|g| *g) && layout.iter().any(|g| !*g);
-            run_mixed(layout, *updates)
+            run_mixed(layout, *updates, *shape)
         }
     };
     (info, viol)
@@ -717,7 +754,9 @@ fn mixed_from_bytes(data: &[u8]) -> Case {
     let mut d = crate::hist::fuzzgen::Dec::new(data);
     let n = d.len(1, 6);
     let layout = (0..n).map(|_| d.bool()).collect();
-    Case::Mixed { layout, updates: d.u8r(0, 3) }
+    let updates = d.u8r(0, 3);
+    let shape = if d.pct(33) { 0 } else { d.u32r(0, u32::MAX) };
+    Case::Mixed { layout, updates, shape }
 }
 
 pub fn fuzz_subs(_ctx: &CheckCtx) -> Vec<crate::fuzz::FuzzSub> {
